@@ -19,18 +19,24 @@ import (
 // C20 - the preview always catches up with the focused line.
 
 const pvScript = `#!/bin/sh
-# args: LOG MODE N Q ITEM [SEL...]   (ITEM may be a file when MODE ends with -f)
+# args: LOG MODE N Q ITEM [SEL...]            (ITEM may be a file when MODE ends with -f)
+#   or: LOG MODE-pf [SEL...] -- N Q ITEM      (selection first)
 log=$1; mode=$2; shift 2
-item=$3
-case $mode in *-f) item=$(cat "$3"); mode=${mode%-f};; esac
-line="start $$ $mode|$1|$2|$item"
-n=0
-for a in "$@"; do n=$((n+1)); if [ $n -gt 3 ]; then line="$line|$a"; fi; done
+sel=""
+case $mode in
+  *-pf) mode=${mode%-pf}
+        while [ "$1" != "--" ]; do sel="$sel|$1"; shift; done
+        shift; n=$1; q=$2; item=$3 ;;
+  *)    n=$1; q=$2; item=$3; shift 3
+        for a in "$@"; do sel="$sel|$a"; done ;;
+esac
+case $mode in *-f) item=$(cat "$item"); mode=${mode%-f};; esac
+line="start $$ $mode|$n|$q|$item$sel"
 printf '%s\n' "$line" >> "$log"
 case $mode in delayed) sleep 0.7 ;; esac
-echo "TOK<$1/$2/$item>"
-echo "L2<$1/$2/$item>"
-echo "L3<$1/$2/$item>"
+echo "TOK<$n/$q/$item>"
+echo "L2<$n/$q/$item>"
+echo "L3<$n/$q/$item>"
 case $mode in
   instant|delayed) ;;
   slow) sleep 0.25; echo "done-slow" ;;
@@ -138,8 +144,9 @@ func c20Session(t *rapid.T) {
 	logf := filepath.Join(dir, "pv.log")
 	// every template draws which of {n} / {q} it refers to (a literal stands in
 	// for an omitted placeholder so that the positions stay the same)
-	useN, useQ := true, true
+	useN, useQ, plusFirst := true, true, false
 	drawUses := func() {
+		plusFirst = rapid.Bool().Draw(t, "plusFirst")
 		useN = rapid.IntRange(0, 3).Draw(t, "useN") != 0
 		useQ = rapid.IntRange(0, 2).Draw(t, "useQ") != 0
 	}
@@ -155,6 +162,10 @@ func c20Session(t *rapid.T) {
 		}
 		if !useQ {
 			qq = "NOQ"
+		}
+		if plus && plusFirst {
+			// the selection placeholder before the others
+			return fmt.Sprintf("sh %s %s %s-pf {+} -- %s %s %s", pv, logf, m, nn, qq, item)
 		}
 		c := fmt.Sprintf("sh %s %s %s %s %s %s", pv, logf, m, nn, qq, item)
 		if plus {
